@@ -3,7 +3,7 @@
 (*  LRM    : every text t (<= L over Alphabet): rows of LEFT/RIGHT for n in -1..L+2,  *)
 (*           MID for k, n in -1..L+2, one-argument LEFT/RIGHT                          *)
 (*  SEARCH : every (f, t) with f <= LF, t <= LT over SAlphabet: results for s = 0..LT+1 and for the two-argument form *)
-(*  CONCAT : operand vectors of 2..3 values of kinds text / integer / decimal / date / blank *)
+(*  CONCAT : operand vectors of 2..3 values of kinds text / integer / decimal / date / blank / truth value *)
 (*  VALUE  : numeric texts of the grid                                                  *)
 EXTENDS XlText, Json
 CONSTANTS Kind, Alphabet, L, SAlphabet, LF, LT
@@ -14,7 +14,10 @@ Ns == [i \in 1..(L + 4) |-> i - 2]            \* -1 .. L+2
 J(r) == IF r.k = "text" THEN [k |-> "text", c |-> r.c] ELSE IF r.k = "num" THEN [k |-> "num", n |-> r.n] ELSE [k |-> r.k]
 Operands == <<[k |-> "text", c |-> <<97, 66>>], [k |-> "dec", m |-> 12, s |-> 0], [k |-> "dec", m |-> -7, s |-> 0], [k |-> "dec", m |-> 25, s |-> 1],
               [k |-> "dec", m |-> 1205, s |-> 3], [k |-> "date", d |-> 45292], [k |-> "blank"], [k |-> "text", c |-> <<>>], [k |-> "text", c |-> <<32, 120>>],
-              [k |-> "dec", m |-> 0, s |-> 0]>>
+              [k |-> "dec", m |-> 0, s |-> 0],
+              \* truth values beside the numbers they equal in Python (True == 1 == 1.0, False == 0 == 0.0): each keeps its own text form
+              [k |-> "bool", b |-> TRUE], [k |-> "bool", b |-> FALSE], [k |-> "dec", m |-> 1, s |-> 0],
+              [k |-> "dec", m |-> 1, s |-> 0, fl |-> TRUE], [k |-> "dec", m |-> 0, s |-> 0, fl |-> TRUE]>>
 Init == st = [ph |-> "root"]
 Next == /\ st.ph = "root"
         /\ \/ /\ Kind = "LRM"
